@@ -251,10 +251,13 @@ def replay(prop, harness, hk, tgt, logf, timeout=1500):
            "--harness-timeout", "%ds" % timeout]
     rc, to = run(cmd, hk, rlog, timeout + 600, mem_gb=30)
     txt = open(rlog, errors="replace").read()
-    m = PLAYBACK_RE.search(txt)
-    if not m:
+    # Kani prints one test per failed assertion AND per satisfied cover; only the former are
+    # counterexamples
+    tests = [m for m in PLAYBACK_RE.finditer(txt) if "Check for `assertion`" in m.group(1) or "Check for `cover`" not in m.group(1)]
+    if not tests:
         return None, None, "no concrete playback test was produced"
-    test_src, test_name = m.group(1), m.group(2)
+    test_src = "".join(m.group(1) for m in tests)
+    test_name = "kani_concrete_playback_"
     mod = harness.split("::")[0]
     modfile = os.path.join(hk, "src", mod + ".rs")
     rdir = os.path.join(VERIF, "replay", prop)
@@ -265,22 +268,25 @@ def replay(prop, harness, hk, tgt, logf, timeout=1500):
         "// Replay: ./bin/check %s --replay %s   (appends this test to harness/src/%s.rs in a scratch\n"
         "// crate and runs `cargo kani playback` natively against /repo, without any stub).\n%s"
         % (harness, prop, prop, rpath, mod, test_src))
-    ok_, note = run_playback(hk, modfile, test_src, test_name, rlog)
+    ok_, note = run_playback(hk, modfile, test_src, test_name, rlog, harness)
     return ok_, rpath, note
 
 
-def run_playback(hk, modfile, test_src, test_name, rlog):
+def run_playback(hk, modfile, test_src, test_name, rlog, harness=""):
     orig = open(modfile).read()
-    open(modfile, "w").write(orig + "\n#[cfg(kani)]\nmod replay_tests {\n    use super::*;\n" + test_src + "}\n")
+    nested = harness.split("::")[1:-1]  # harnesses may live in a nested module of the file
+    uses = "    use super::*;\n" + ("    use super::%s::*;\n" % "::".join(nested) if nested else "")
+    open(modfile, "w").write(orig + "\n#[cfg(kani)]\nmod replay_tests {\n" + uses + test_src + "}\n")
     try:
         cmd = ["cargo", "kani", "playback", "-Z", "concrete-playback", "--", test_name]
         rc, to = run(cmd, hk, rlog, 1500)
         txt = open(rlog, errors="replace").read()
         tail = txt[txt.rfind("$ cargo kani playback"):]
+        tail = tail.split("Doc-tests")[0]
         if re.search(r"test result: FAILED|panicked at", tail):
             m = re.search(r"panicked at ([^\n]*)\n([^\n]*)", tail)
             return True, ("native run fails: " + (m.group(1) + " " + m.group(2) if m else "test failed"))[:400]
-        if re.search(r"test result: ok\. 1 passed", tail):
+        if re.search(r"test result: ok\. [1-9]\d* passed", tail):
             return False, "native run of the counterexample passes (encoding or stub mismatch)"
         return None, "playback did not run (rc=%s)" % rc
     finally:
@@ -477,7 +483,8 @@ def write_evidence(prop, tier, seed, cfg, all_res, inconclusive, violations, kno
 def do_replay(prop, path):
     """Replay a stored counterexample natively."""
     src = open(path).read()
-    m = PLAYBACK_RE.search(src)
+    ms = list(PLAYBACK_RE.finditer(src))
+    m = ms[0] if ms else None
     hm = re.search(r"Counterexample for harness (\S+)", src)
     if not m or not hm:
         log("not a replay file")
@@ -497,7 +504,7 @@ def do_replay(prop, path):
                 log("BUILD-FAILURE: " + why)
                 return 2
         mod = harness.split("::")[0]
-        rep, note = run_playback(hk, os.path.join(hk, "src", mod + ".rs"), m.group(1), m.group(2), logf)
+        rep, note = run_playback(hk, os.path.join(hk, "src", mod + ".rs"), "".join(x.group(1) for x in ms), "kani_concrete_playback_", logf, harness)
         log("replay of %s: %s (%s)" % (harness, "REPRODUCED" if rep else "not reproduced", note))
         if rep:
             log("VIOLATION property=%s replay=%s" % (prop, path))
